@@ -550,4 +550,81 @@ theorem emitted_framesWF (sw : Sw) (hr : RulesOk sw.table) (acts : List Action) 
   exact emittedRec_framesWF _ _ _ _ (fun f' hw' => tableOuts_framesWF sw hr f' hw' ingress none)
     (fun f' hw' => (lookupPacket_spec 0 sw hr sw.stats f' hw' ingress none).2) acts f hw hargs
 
+/-! ## which packet each emitted frame is the wire form of -/
+
+theorem mem_emittedWith {ps : List Port} {tk : Frame → Nat → List Out} {tr : Frame → Nat → Frame} {acts : List Action}
+    {f : Frame} {ingress : Nat} {o : Out} (h : o ∈ emittedWith ps tk tr acts f ingress) :
+    (∃ i a, i < (effective acts).length ∧ (effective acts)[i]? = some a ∧
+        o ∈ actOuts ps tk a (rewrite tr ingress ((effective acts).take i) f) ingress) ∨ o = .error 2 0 := by
+  unfold emittedWith at h
+  rcases List.mem_append.mp h with h | h
+  · left
+    obtain ⟨i, hi, ho⟩ := List.mem_flatMap.mp h
+    have hlt : i < (effective acts).length := List.mem_range.mp hi
+    cases ha : (effective acts)[i]? with
+    | none => simp [ha] at ho
+    | some a => simp only [ha] at ho; exact ⟨i, a, hlt, ha, ho⟩
+  · right
+    split at h
+    · simpa using h
+    · simp at h
+
+theorem frame_of_actOuts {ps : List Port} {tk : Frame → Nat → List Out} {a : Action} {f' : Frame} {ingress p : Nat} {b : Bytes}
+    (h : Out.frame p b ∈ actOuts ps tk a f' ingress) : b = serF f' ∨ Out.frame p b ∈ tk f' ingress := by
+  have hout : ∀ port ml, Out.frame p b ∈ outOf ps tk port ml f' ingress → b = serF f' ∨ Out.frame p b ∈ tk f' ingress := by
+    intro port ml h
+    unfold outOf at h
+    split at h
+    · simp only [List.mem_singleton] at h; exact absurd h.symm (packetInOf_ne_frame _ _ _ _ _ _)
+    · split at h
+      · exact .inr h
+      · simp only [List.mem_map, Out.frame.injEq] at h
+        obtain ⟨_, _, _, rfl⟩ := h
+        exact .inl rfl
+  cases a with
+  | output port ml => exact hout port (some ml) h
+  | enqueue port q => exact hout port none h
+  | _ => simp [actOuts] at h
+
+theorem effective_args {acts : List Action} (h : ∀ a ∈ acts, ArgsOk a) (i : Nat) : ∀ a ∈ (effective acts).take i, ArgsOk a :=
+  fun a ha => h a ((List.takeWhile_sublist _).subset (List.mem_of_mem_take ha))
+
+theorem rewrite_wf (tr : Frame → Nat → Frame) (ingress : Nat) (htr : ∀ f, f.WF → (tr f ingress).WF) :
+    ∀ (l : List Action) (f : Frame), f.WF → (∀ a ∈ l, ArgsOk a) → (rewrite tr ingress l f).WF := by
+  intro l
+  induction l with
+  | nil => intro f hw _; exact hw
+  | cons a rest ih =>
+    intro f hw ha
+    exact ih _ (step1_wf tr ingress htr a f hw (ha a List.mem_cons_self)) (fun a h => ha a (List.mem_cons_of_mem _ h))
+
+theorem tableRewrite_wf (sw : Sw) (hr : RulesOk sw.table) (ingress : Nat) (f : Frame) (hw : f.WF) : (tableRewrite sw f ingress).WF :=
+  (lookupPacket_spec 0 sw hr sw.stats f hw ingress none).2
+
+/-- every frame of `Spec.emitted` is the wire form of the packet as rewritten up to the output that emits it: output `i` of
+the action list, or output `j` of the flow entry reached through an output `i` to TABLE -/
+theorem emitted_frame_witness (sw : Sw) (acts : List Action) (f : Frame) (ingress : Nat) (p : Nat) (b : Bytes)
+    (hm : Out.frame p b ∈ emitted sw acts f ingress) :
+    ∃ i, i < (effective acts).length ∧
+      (b = serF (rewrite (tableRewrite sw) ingress ((effective acts).take i) f) ∨
+       ∃ racts j, lookup sw.table ingress = some racts ∧ j < (effective racts).length ∧
+         b = serF (rewrite (fun f _ => f) ingress ((effective racts).take j)
+                    (rewrite (tableRewrite sw) ingress ((effective acts).take i) f))) := by
+  unfold emitted at hm
+  rcases mem_emittedWith hm with ⟨i, a, hi, _, ho⟩ | h
+  · refine ⟨i, hi, ?_⟩
+    rcases frame_of_actOuts ho with h | h
+    · exact .inl h
+    · right
+      unfold tableOuts at h
+      split at h
+      · rename_i racts hl
+        rcases mem_emittedWith h with ⟨j, a', hj, _, ho'⟩ | h'
+        · rcases frame_of_actOuts ho' with h'' | h''
+          · exact ⟨racts, j, hl, hj, h''⟩
+          · simp at h''
+        · cases h'
+      · exact absurd h (spec_missOuts_noFrames _ _ _ p b)
+  · cases h
+
 end Pox.Actions
